@@ -501,11 +501,12 @@ def served_stage(ctx):
     import vcheck
     consts = (1, 2, '{"a","b"}', 4, 0, 0, 0)
     behaviours = []
-    cfg = write_cfg(ctx, "x_goal_fault", CONSTS["w_fault"], ASCODED, "MCSpec", [], ["NoApplyAfterFault"], view="View", faults=1)
-    r = ctx.tlc("RaftPinsetMC.tla", cfg, workers=2, timeout=1200, count=False, expect_violation=True)
-    if not r.violation:
-        raise vcheck.Infra("reachability goal NoApplyAfterFault is unreachable in the model")
-    behaviours.append(parse_error_trace(r.out))
+    for goal in ("NoVisibleHole", "NoApplyAfterFault"):
+        cfg = write_cfg(ctx, "x_goal_" + goal, CONSTS["w_fault"], ASCODED, "MCSpec", [], [goal], view="View", faults=1)
+        r = ctx.tlc("RaftPinsetMC.tla", cfg, workers=2, timeout=1200, count=False, expect_violation=True)
+        if not r.violation:
+            raise vcheck.Infra("reachability goal %s is unreachable in the model" % goal)
+        behaviours.append(parse_error_trace(r.out))
     cfg = write_cfg(ctx, "x_gen_fault", consts, ASCODED, "GenSpec", faults=1)
     pref = "fbeh%d" % ctx.seed
     ctx.tlc("RaftPinsetMC.tla", cfg, workers=1, timeout=1800, count=False,
@@ -521,8 +522,16 @@ def served_stage(ctx):
         if key in seen:
             continue
         seen.add(key)
-        cases.append({"id": len(cases) + 1, "cids": sorted(prefixes[0].keys()), "ops": ops, "prefixes": prefixes})
+        # the hole is visible when the store TLC predicts equals no prefix result (and something was served before)
+        visible = fails[0] >= 1 and states[-1]["fsm"]["p1"] not in prefixes
+        cases.append({"id": len(cases) + 1, "cids": sorted(prefixes[0].keys()), "ops": ops, "prefixes": prefixes,
+                      "visible": visible})
+    cases.sort(key=lambda c: not c["visible"])
     cases = cases[:8 if ctx.quick() else 80]
+    for k, c in enumerate(cases):
+        c["id"] = k + 1
+    if not any(c["visible"] for c in cases):
+        raise vcheck.Infra("no behaviour in which the failed apply leaves a visible hole was generated")
     if not cases:
         raise vcheck.Infra("no behaviour with an apply after a failed apply was generated")
     inp = os.path.join(ctx.work, "c01_served_cases.ndjson")
@@ -531,7 +540,7 @@ def served_stage(ctx):
             f.write(json.dumps(c) + "\n")
     ctx.go_test("c17_member", run="TestServedView", infile=inp, timeout=900,
                 tags="verif,verifhooks" if hooks_present(ctx) else "verif")
-    ctx.extra["served_view_cases"] = len(cases)
+    ctx.extra["served_view_cases"] = {"cases": len(cases), "hole_visible_in_model": len([c for c in cases if c["visible"]])}
 
 
 def gate_present(ctx):
